@@ -77,6 +77,7 @@ class SymTracer(core.Tracer):
 
     def __format__(self, spec):
         pathx.note("format_spec", spec)
+        pathx.note("formatted", (spec, self.val))
         if spec:
             format(1.0, spec)  # raises ValueError exactly when the real float formatting would
         return "<sym>"
